@@ -18,7 +18,8 @@ theorem mudlibConnect_cstep (S : Scripts) (w : W) : CStep w (mudlibConnect S w).
     · rename_i id hid
       intro inv
       -- the state with the counters bumped and the event logged
-      let w1 : W := { (emit { w with nConnect := w.nConnect + 1 } (.tConnect (w.nConnect + 1))) with nUser := w.nUser + 1 }
+      let w1 : W := { (emit { w with nConnect := w.nConnect + 1, masterRef := w.masterRef + 1 }
+                          (.tConnect (w.nConnect + 1))) with nUser := w.nUser + 1, masterRef := w.masterRef + 1 - 1 }
       have s1 : Same w w1 := ⟨rfl, rfl, rfl, rfl, rfl, rfl, rfl, rfl, rfl, by trx⟩
       obtain ⟨inv1, _⟩ := s1.step inv
       have hid1 : w1.inter .master = some id := hid
